@@ -15,13 +15,14 @@ import (
 	"errors"
 	"fmt"
 	"sort"
+	"strings"
 
+	"google.golang.org/protobuf/types/known/structpb"
 	corev1 "k8s.io/api/core/v1"
 	metav1 "k8s.io/apimachinery/pkg/apis/meta/v1"
 	"k8s.io/apimachinery/pkg/apis/meta/v1/unstructured"
 	"k8s.io/apimachinery/pkg/runtime"
 	"k8s.io/apimachinery/pkg/runtime/schema"
-	"google.golang.org/protobuf/types/known/structpb"
 
 	xpv1 "github.com/crossplane/crossplane-runtime/apis/common/v1"
 	ucomposite "github.com/crossplane/crossplane-runtime/pkg/resource/unstructured/composite"
@@ -70,10 +71,10 @@ type c04Cred struct {
 }
 
 type c04Step struct {
-	Fn    string     `json:"fn"`
-	Input string     `json:"input"` // "" = none; else the value of input.spec.v
-	Creds []c04Cred  `json:"creds"`
-	Rules []c04Rule  `json:"rules"`
+	Fn    string    `json:"fn"`
+	Input string    `json:"input"` // "" = none; else the value of input.spec.v
+	Creds []c04Cred `json:"creds"`
+	Rules []c04Rule `json:"rules"`
 }
 
 type c04Extra struct {
@@ -104,14 +105,14 @@ type c04Res struct {
 }
 
 type c04Req struct {
-	Step     int        `json:"step"`
-	Fn       string     `json:"fn"`
-	Observed []c04Res   `json:"observed"`
-	Desired  []c04Res   `json:"desired"`
-	Ctx      [][2]string `json:"ctx"`
+	Step     int            `json:"step"`
+	Fn       string         `json:"fn"`
+	Observed []c04Res       `json:"observed"`
+	Desired  []c04Res       `json:"desired"`
+	Ctx      [][2]string    `json:"ctx"`
 	Extra    []c04ExtraSeen `json:"extra"`
-	Input    string     `json:"input"`
-	Creds    []c04CredSeen `json:"creds"`
+	Input    string         `json:"input"`
+	Creds    []c04CredSeen  `json:"creds"`
 }
 
 type c04ExtraSeen struct {
@@ -126,10 +127,10 @@ type c04CredSeen struct {
 }
 
 type c04Event struct {
-	Type   string `json:"type"`
-	Msg    string `json:"msg"`
-	Claim  bool   `json:"claim"`
-	Step   string `json:"step"`
+	Type  string `json:"type"`
+	Msg   string `json:"msg"`
+	Claim bool   `json:"claim"`
+	Step  string `json:"step"`
 }
 
 type c04CondOut struct {
@@ -147,7 +148,7 @@ type c04Obs struct {
 	Desired []c04Res     `json:"desired"` // composed resources of the result (name = "" here)
 	XRReady string       `json:"xrReady"` // unset | true | false
 	// writes addressed to composed kinds or to spec.resourceRefs (C03: must be empty on failure)
-	Writes  int          `json:"writes"`
+	Writes int `json:"writes"`
 }
 
 func c04Holds(c c04Cond, req *fnv1.RunFunctionRequest) bool {
@@ -314,6 +315,7 @@ func c04Run(s c04Scn) (c04Obs, []Mon) {
 	reqCanon := map[int][]string{}
 	lastStep := -1
 	var lastSel map[string]*fnv1.ResourceSelector
+	lastResults := map[int][]*fnv1.Result{} // results of each step's last (accepted) call
 	lastFatal := map[int]bool{}
 	inner := composite.FunctionRunnerFn(func(_ context.Context, name string, req *fnv1.RunFunctionRequest) (*fnv1.RunFunctionResponse, error) {
 		i := stepIdx[name]
@@ -413,6 +415,7 @@ func c04Run(s c04Scn) (c04Obs, []Mon) {
 				}
 			}
 			lastSel = rsp.GetRequirements().GetExtraResources()
+			lastResults[i] = rsp.GetResults()
 			reqCanon[i] = append(reqCanon[i], canon)
 			lastFatal[i] = fatal
 			if why := c04BetaRspRoundTrip(rsp); why != "" {
@@ -454,6 +457,40 @@ func c04Run(s c04Scn) (c04Obs, []Mon) {
 		gk := schema.ParseGroupKind(c.GK)
 		if gk.Kind == "KA" || gk.Kind == "KB" || (gk.Kind == xwXRGVK.Kind && c.Sub == "") {
 			obs.Writes++
+		}
+	}
+	// C04 monitor, evaluated on the real result: the results of every step's accepted answer are
+	// surfaced as events in pipeline order and none is dropped (up to the first fatal one)
+	{
+		want := []string{}
+		sawFatal := false
+		for i := 0; i < len(s.Steps) && !sawFatal; i++ {
+			rs, called := lastResults[i]
+			if !called {
+				break
+			}
+			for _, x := range rs {
+				if x.GetSeverity() == fnv1.Severity_SEVERITY_FATAL {
+					sawFatal = true
+					break
+				}
+				want = append(want, x.GetMessage())
+			}
+		}
+		if err == nil || sawFatal {
+			j := 0
+			for _, e := range obs.Events {
+				if j < len(want) && strings.Contains(e.Msg, want[j]) {
+					j++
+				}
+			}
+			if j < len(want) {
+				msgs := []string{}
+				for _, e := range obs.Events {
+					msgs = append(msgs, e.Msg)
+				}
+				mons = append(mons, Mon{Sig: "C04:result-dropped-or-reordered", Why: fmt.Sprintf("the accepted answers carried the non-fatal results %q in pipeline order; the events returned are %q", want, msgs)})
+			}
 		}
 	}
 	// C04/C03 monitor: a step's answer is accepted only if its requirements equal those of the previous round
@@ -554,6 +591,13 @@ func c04GenStep(r *Rng, i int) c04Step {
 			}})
 		}
 	}
+	// a selector that is NARROWED from one round to the next: the same requirement name, kind
+	// and labels, with one more label once the broader match has been delivered
+	if r.Chance(1, 5) {
+		st.Rules = append(st.Rules,
+			c04Rule{If: c04Cond{T: "lacksExtra", K: "nar"}, Do: []c04Act{{T: "require", K: "nar", Sel: &c04Sel{Kind: "EX", Labels: map[string]string{"tier": "gold"}}}}},
+			c04Rule{If: c04Cond{T: "hasExtra", K: "nar"}, Do: []c04Act{{T: "require", K: "nar", Sel: &c04Sel{Kind: "EX", Labels: map[string]string{"tier": "gold", "zone": "a"}}}}})
+	}
 	return st
 }
 
@@ -577,7 +621,7 @@ func c04Gen(r *Rng) c04Scn {
 		}
 		s.Refs = append(s.Refs, xwRef{Kind: o.Kind, Name: o.Name})
 	}
-	for _, e := range []c04Extra{{Kind: "EX", Name: "x1", Labels: map[string]string{"tier": "gold"}}, {Kind: "EX", Name: "x2", Labels: map[string]string{"tier": "gold"}}, {Kind: "EY", Name: "x1", Labels: map[string]string{"tier": "silver"}}} {
+	for _, e := range []c04Extra{{Kind: "EX", Name: "x1", Labels: map[string]string{"tier": "gold", "zone": "a"}}, {Kind: "EX", Name: "x2", Labels: map[string]string{"tier": "gold"}}, {Kind: "EY", Name: "x1", Labels: map[string]string{"tier": "silver"}}} {
 		if r.Chance(2, 3) {
 			s.Cluster = append(s.Cluster, e)
 		}
